@@ -119,6 +119,37 @@ class Result:
         return [e for e in self.events if e.kind in kinds]
 
 
+_MENTIONED: Optional[set] = None
+
+
+def mentioned_names() -> set:
+    """function names that some rule refers to (as callee / anchor): those
+    stay opaque call events; any *other* helper defined in the same module as
+    the function under analysis is looked through automatically, so that
+    extracting or renaming a helper does not change what a rule sees"""
+    global _MENTIONED
+    if _MENTIONED is None:
+        import os
+        import re
+        names = set()
+        rd = os.path.join(os.path.dirname(os.path.abspath(__file__)),
+                          "rules")
+        for fn in os.listdir(rd):
+            if not fn.endswith(".py"):
+                continue
+            try:
+                tree = ast.parse(open(os.path.join(rd, fn)).read())
+            except SyntaxError:
+                continue
+            for n in ast.walk(tree):
+                if isinstance(n, ast.Constant) and isinstance(n.value, str) \
+                        and len(n.value) < 200:
+                    for w in re.findall(r"[A-Za-z_][A-Za-z_0-9]*", n.value):
+                        names.add(w)
+        _MENTIONED = names
+    return _MENTIONED
+
+
 class Interp:
     def __init__(self, prog: Program,
                  inline: Callable[[Function], bool] = lambda f: False,
@@ -126,9 +157,12 @@ class Interp:
                  assume: Optional[Callable[[T], Optional[bool]]] = None,
                  inline_properties: bool = False,
                  inline_closures: bool = True,
-                 unique_method_fallback: bool = True):
+                 unique_method_fallback: bool = True,
+                 auto_inline: bool = True):
         self.prog = prog
-        self.inline = inline
+        self._explicit_inline = inline
+        self.auto_inline = auto_inline
+        self.inline = self._should_inline
         self.max_depth = max_depth
         self.assume = assume or (lambda t: None)
         self.inline_properties = inline_properties
@@ -147,6 +181,20 @@ class Interp:
         self._const_cache: Dict[str, T] = {}
         self.closures: Dict[str, Tuple[ast.AST, Frame]] = {}
         self.loop_pending: List[list] = []
+
+    def _should_inline(self, target: Function) -> bool:
+        if self._explicit_inline(target):
+            return True
+        if not self.auto_inline:
+            return False
+        root = self._root_func()
+        if root is None or target.module is not root.module:
+            return False
+        if target.is_property or target.name.startswith("__"):
+            return False
+        if target.module.name in ("evo.core.transformations",):
+            return False
+        return target.name not in mentioned_names()
 
     # ================================================================ entry
     def run(self, fn: Function, args: Optional[Dict[str, T]] = None,
